@@ -9,6 +9,30 @@ CHECKS = {
          "Exhaustive comparison of every row of the five syscall table literals, the audit constants, the Info literals and the alias map, as evaluated by the Go type checker, with independent oracle tables; proof relative to those oracle files.",
          "Trusted: go/types constant evaluation, go/ssa, /verif/oracle/oracle.json (x/sys v0.19.0, GOROOT syscall tables, /usr/include UAPI headers). Rows no oracle lists are counted, not compared.",
          "DESIGN.md section 4, C12"),
+ "C19": ("proof", "per-target constant evaluation (go/types under all 49 GOOS/GOARCH of `go tool dist list`), build-constraint file selection, AST check of the stubs, dominance check of GetInfo / Policy.Assemble",
+         "Every constant the library exposes is evaluated by the type checker under every distribution target and compared with the vendored UAPI values; stubs are shown call-free; the unsupported-architecture path is a dominance fact. Exhaustive over the finite target list.",
+         "Trusted: go/types, go list file selection, oracle.json (linux/seccomp.h, prctl.h, errno headers; mips ENOSYS recorded by hand).",
+         "DESIGN.md section 4, C19"),
+ "C14": ("other", "table agreement (parser and printer read one injective lower-case map; Operations = const block), SSA guard/dominance check of the Unpack methods, struct-tag key agreement over all types reachable from Policy",
+         "Decides the name-table and key-agreement clauses (necessary conditions of the round trip); the behaviour of go-ucfg / yaml.v2 on concrete documents is third-party run-time behaviour and is not claimed.",
+         "Trusted: go/types, go/ssa, tag-key conventions of go-ucfg, yaml.v2 and encoding/json. Not covered: number widths, validate tags, concrete documents.",
+         "DESIGN.md section 4, C14"),
+ "C08": ("other", "SSA value-flow chain LoadFilter: Policy.Assemble -> bpf.Assemble -> field-for-field copy loop -> SockFprog{Len,Filter} of the same slice -> seccomp(2) arg 3; wrapper parameters reach the raw syscall through conversions only",
+         "Program-identity clause only (second sentence of the property). The kernel's decisions after the load are run-time behaviour: not applicable to static analysis and not claimed.",
+         "Trusted: go/ssa, SYS_SECCOMP oracle, bpf.Assemble maps one instruction to one raw instruction.",
+         "DESIGN.md section 4, C08"),
+ "C09": ("other", "result-inspection and error-discipline rules on SSA with dominators: errno and r1 of the raw seccomp call, failure edges of every fallible call in LoadFilter, `return nil` only behind the seccomp success edge, no syscall-reaching call before both compile steps succeeded, constant probe triple",
+         "All paths through the loader, including the failure paths no test executes; kernel return-value contract is trusted (seccomp(2), prctl(2)).",
+         "Trusted: go/ssa dominators; seccomp(2) RETURN VALUE section (TSYNC: positive tid, errno 0); kernel answers EINVAL to (STRICT, flags!=0).",
+         "DESIGN.md section 4, C09"),
+ "C10": ("other", "SSA value-origin: Filter.Flag reaches syscall argument 2 through conversions only; flag constants vs UAPI; sandbox literal carries TSYNC",
+         "Flag-word clause only; 'every thread under every schedule' is the kernel's seccomp_sync_threads plus the scheduler: not applicable to static analysis and not claimed.",
+         "Trusted: go/ssa; linux/seccomp.h flag values.",
+         "DESIGN.md section 4, C10"),
+ "C11": ("other", "control-dependence, dominance and typestate rules on LoadFilter's CFG: prctl iff filter.NoNewPrivs, before seccomp, error returned, raw prctl arguments resolved through the variadic copy, both syscalls bracketed by runtime.LockOSThread/UnlockOSThread",
+         "Holds on every path and therefore under every goroutine schedule (thread pinning is a structural fact); kernel acceptance is trusted.",
+         "Trusted: go/ssa dominators, runtime.LockOSThread semantics, prctl(2) argument contract.",
+         "DESIGN.md section 4, C11"),
 }
 NOT_YET = "check under construction in this session (see DESIGN.md section 4 for the planned rules); not claimed until it runs"
 ALL = ["C%02d" % i for i in range(1, 20)]
